@@ -511,7 +511,10 @@ struct AbbreviationDisplay<S>(S);
 impl<S: AsRef<str>> core::fmt::Display for AbbreviationDisplay<S> {
     fn fmt(&self, f: &mut core::fmt::Formatter) -> core::fmt::Result {
         let s = self.0.as_ref();
-        if s.chars().any(|ch| ch == '+' || ch == '-') {
+        // An unquoted abbreviation may only contain ASCII letters. Anything
+        // else (signs, but also digits) needs to be quoted, or else it can't
+        // be distinguished from the offset that follows it.
+        if s.chars().any(|ch| !ch.is_ascii_alphabetic()) {
             write!(f, "<{s}>")
         } else {
             write!(f, "{s}")
